@@ -65,6 +65,24 @@ func mkSink(i, outcome int) *fsink {
 
 const nOutcomes = 5
 
+// how the entry ends: ordinary levels return; the terminal ones run an action that
+// does not come back (panic, goroutine exit) or - Fatal with a returning hook - stand in for os.Exit
+type endMode struct {
+	name                string
+	lvl                 zapcore.Level
+	panics, goexit, dev bool
+}
+
+var modes = []endMode{
+	{name: "info", lvl: zapcore.InfoLevel},
+	{name: "error", lvl: zapcore.ErrorLevel},
+	{name: "fatal(hook stands in for os.Exit)", lvl: zapcore.FatalLevel},
+	{name: "panic", lvl: zapcore.PanicLevel, panics: true},
+	{name: "dpanic(Development)", lvl: zapcore.DPanicLevel, panics: true, dev: true},
+	{name: "dpanic(production)", lvl: zapcore.DPanicLevel},
+	{name: "fatal(WriteThenGoexit)", lvl: zapcore.FatalLevel, goexit: true},
+}
+
 func sinkFaults(run *ev.Run, maxK int) (evals int, distinct map[string]bool) {
 	distinct = map[string]bool{}
 	enc := func() zapcore.Encoder { return zapcore.NewJSONEncoder(zap.NewProductionEncoderConfig()) }
@@ -75,7 +93,8 @@ func sinkFaults(run *ev.Run, maxK int) (evals int, distinct map[string]bool) {
 				total *= nOutcomes
 			}
 			for v := 0; v < total; v++ {
-				for _, lvl := range []zapcore.Level{zapcore.InfoLevel, zapcore.ErrorLevel, zapcore.FatalLevel} {
+				for _, mode := range modes {
+					lvl := mode.lvl
 					sinks := make([]*fsink, k)
 					x := v
 					label := ""
@@ -105,9 +124,27 @@ func sinkFaults(run *ev.Run, maxK int) (evals int, distinct map[string]bool) {
 					}
 					eo := &errOut{}
 					fatals := 0
-					logger := zap.New(core, zap.ErrorOutput(eo), zap.WithFatalHook(hook(func() { fatals++ })))
-					desc := fmt.Sprintf("%s of %d destinations outcomes=%s (0 ok,1 write error,2 short write+error,3 sync error,4 zero count+error) level=%v", topo, k, label, lvl)
+					desc := fmt.Sprintf("%s of %d destinations outcomes=%s (0 ok,1 write error,2 short write+error,3 sync error,4 zero count+error) level=%v", topo, k, label, mode.name)
 					key := func(what string) string { return fmt.Sprintf("sinks:%s:%s", topo, what) }
+					// at the moment the terminal action starts (a real Fatal exits there, a panic unwinds
+					// from there) the failure must already have been reported
+					atHook := func() {
+						fatals++
+						rep := eo.b.String()
+						for i, s := range sinks {
+							if s.writeErr != nil && strings.Count(rep, s.writeErr.Error()) < fatals {
+								run.Report(key("write-error-not-reported-before-terminal-action"), fmt.Sprintf("%s: when the terminal action of entry %d started, error %q of destination %d was not yet on the error output: %q", desc, fatals-1, s.writeErr, i, rep), desc)
+							}
+						}
+					}
+					opts := []zap.Option{zap.ErrorOutput(eo), zap.WithFatalHook(hook(atHook))}
+					if mode.goexit {
+						opts[1] = zap.WithFatalHook(zapcore.WriteThenGoexit)
+					}
+					if mode.dev {
+						opts = append(opts, zap.Development())
+					}
+					logger := zap.New(core, opts...)
 					returned := func() (ok bool) {
 						defer func() {
 							if r := recover(); r != nil {
@@ -115,7 +152,31 @@ func sinkFaults(run *ev.Run, maxK int) (evals int, distinct map[string]bool) {
 							}
 						}()
 						for e := 0; e < 2; e++ {
-							logger.Log(lvl, fmt.Sprintf("entry-%d", e), zap.Int("n", e))
+							msg := fmt.Sprintf("entry-%d", e)
+							switch {
+							case mode.goexit:
+								// the call ends its goroutine: make it on one of its own
+								done := make(chan struct{})
+								go func() {
+									defer close(done)
+									logger.Log(lvl, msg, zap.Int("n", e))
+									run.Report(key("goexit-returned"), desc+": Fatal with WriteThenGoexit returned", desc)
+								}()
+								<-done
+							case mode.panics:
+								func() {
+									defer func() {
+										if r := recover(); r == nil {
+											run.Report(key("no-panic"), desc+": the call returned without panicking", desc)
+										} else if fmt.Sprint(r) != msg {
+											panic(r)
+										}
+									}()
+									logger.Log(lvl, msg, zap.Int("n", e))
+								}()
+							default:
+								logger.Log(lvl, msg, zap.Int("n", e))
+							}
 						}
 						_ = logger.Sync()
 						return true
@@ -137,9 +198,6 @@ func sinkFaults(run *ev.Run, maxK int) (evals int, distinct map[string]bool) {
 								run.Report(key("destination-incomplete"), fmt.Sprintf("%s: destination %d entry %d got %q", desc, i, e, w), desc)
 							}
 						}
-						if lvl > zapcore.ErrorLevel && s.syncs == 0 {
-							run.Report(key("no-sync-before-terminal-action"), fmt.Sprintf("%s: destination %d was not synced", desc, i), desc)
-						}
 					}
 					// the error output names every write error, once per failing entry
 					rep := eo.b.String()
@@ -159,7 +217,7 @@ func sinkFaults(run *ev.Run, maxK int) (evals int, distinct map[string]bool) {
 					if !anyWriteErr && strings.Contains(rep, "write error") {
 						run.Report(key("spurious-report"), fmt.Sprintf("%s: error output has a write error report although no write failed: %q", desc, rep), desc)
 					}
-					if lvl == zapcore.FatalLevel && fatals != 2 {
+					if lvl == zapcore.FatalLevel && !mode.goexit && fatals != 2 {
 						run.Report(key("fatal-hook"), fmt.Sprintf("%s: fatal hook ran %d times for 2 fatal entries", desc, fatals), desc)
 					}
 				}
@@ -197,12 +255,14 @@ func main() {
 		nodes, maxK = 5, 4
 	}
 	d.F1(nodes)
+	d.ReflectSeqs(nodes)
 	d.F2(0)
 	se, sd := sinkFaults(run, maxK)
 	run.Assume = []string{
 		"field faults: marshaler error before / between / after children at every node of every tree with <= the stated number of nodes, unencodable reflected values (channel, failing json.Marshaler) as fields and as array elements, panicking Stringer / Error() / Errors(), nil-pointer Stringer and error (rendered as \"<nil>\" under the field's own key, which zap documents in encodeStringer/encodeError)",
 		"elements of the same array after a failing element are not required (zap's array marshalers stop at the first error; the statement speaks of other fields)",
-		"sink/core faults: every vector over {ok, write error, short write + error, sync error, nothing written + error} for tees and multi-syncers of k destinations, two entries each, levels info/error/fatal(with hook)",
+		"sink/core faults: every vector over {ok, write error, short write + error, sync error, nothing written + error} for tees and multi-syncers of k destinations, two entries each, ending in every way an entry can end: info, error, dpanic (production), fatal with a hook standing in for os.Exit (the report must be on the error output when the hook starts), panic, dpanic under Development (recovered), fatal with WriteThenGoexit (own goroutine)",
+		"field faults are also run with a user-supplied NewReflectedEncoder that has already written part of its output when it fails (a streaming encoder)",
 	}
 	cov := d.Coverage("field part: one evaluation = one log call on the real JSON core with a failing field somewhere in the tree, decoded and compared with the reference tree that contains the <key>Error member and every other field; sink part: one evaluation = one (topology, outcome vector, level) run of two entries; distinct = distinct output lines / outcome vectors")
 	cov["evaluations"] = d.Evals.Load() + int64(se)
